@@ -111,7 +111,8 @@ Theorem C14_no_panic_xlsb_read_names : forall show_f64 sheets recs,
   xlsb_read_names show_f64 sheets recs <> Panic.
 Proof. exact no_panic_xlsb_read_names. Qed.
 
-Theorem C14_no_panic_xls_read_names : forall sheets recs, xls_read_names sheets recs <> Panic.
+Theorem C14_no_panic_xls_read_names : forall show_f64 sheets recs,
+  xls_read_names show_f64 sheets recs <> Panic.
 Proof. exact no_panic_xls_read_names. Qed.
 
 (* ---------------------------------------------------------------- positions *)
@@ -149,10 +150,23 @@ Theorem C14_defined_names_in_order : forall show_f64 ext ds r,
   spec_names_xlsb show_f64 ext [] ds = Ok r -> map fst r = map nr_name ds.
 Proof. exact defined_names_in_order_xlsb. Qed.
 
-Theorem C14_defined_names_in_order_xls : forall sheets gs names xtis, forallb wf_grec gs = true ->
-  xls_read_names sheets (map enc_grec gs) = Ok (names, xtis) ->
+Theorem C14_defined_names_in_order_xls : forall show_f64 sheets gs names xtis, forallb wf_grec gs = true ->
+  xls_read_names show_f64 sheets (map enc_grec gs) = Ok (names, xtis) ->
   map fst names = map lb_name (lbls_of gs) /\ xtis = xtis_of gs.
 Proof. exact defined_names_in_order_xls. Qed.
+
+(* … and the reported text of the i-th name is the A1 rendering of its whole formula, for every
+   well-formed AST (any construct of the grammar; names defined through names stored before or
+   after them included) — through C14_rpn_correct_xls.  Former known class K_XLS_NAME_FORMULA. *)
+Theorem C14_defined_name_text_is_render_xls : forall show_f64 sheets gs names xtis i d e,
+  forallb wf_grec gs = true ->
+  xls_read_names show_f64 sheets (map enc_grec gs) = Ok (names, xtis) ->
+  nth_error (lbls_of gs) i = Some d -> lb_rgce d = encode_xls e ->
+  N.of_nat (length (encode_xls e)) < 65536 ->
+  let env := {| xe_sheets := sheets; xe_names := map lb_name (lbls_of gs); xe_xtis := xtis_of gs |} in
+  wf_xls env e = true ->
+  nth_error names i = Some (lb_name d, render_xls show_f64 env e).
+Proof. exact defined_name_text_is_render_xls. Qed.
 
 (* the name used for PtgName index i+1 is the i-th record's name, whatever flags the records carry;
    stated on the table and on the decoder itself *)
@@ -161,8 +175,8 @@ Theorem C14_name_index_stable : forall show_f64 ext ds r i d,
   spec_name (map fst r) (N.of_nat i + 1) = nr_name d.
 Proof. exact name_index_stable_xlsb. Qed.
 
-Theorem C14_name_index_stable_xls : forall sheets gs names xtis i d, forallb wf_grec gs = true ->
-  xls_read_names sheets (map enc_grec gs) = Ok (names, xtis) ->
+Theorem C14_name_index_stable_xls : forall show_f64 sheets gs names xtis i d, forallb wf_grec gs = true ->
+  xls_read_names show_f64 sheets (map enc_grec gs) = Ok (names, xtis) ->
   nth_error (lbls_of gs) i = Some d ->
   spec_name (map fst names) (N.of_nat i + 1) = lb_name d.
 Proof. exact name_index_stable_xls. Qed.
@@ -176,7 +190,7 @@ Proof. exact ptgname_is_ith_record_xlsb. Qed.
 
 Theorem C14_ptgname_is_ith_record_xls : forall show_f64 sheets gs names xtis i d k,
   forallb wf_grec gs = true ->
-  xls_read_names sheets (map enc_grec gs) = Ok (names, xtis) ->
+  xls_read_names show_f64 sheets (map enc_grec gs) = Ok (names, xtis) ->
   nth_error (lbls_of gs) i = Some d -> N.of_nat i + 1 < 4294967296 ->
   xls_parse_formula show_f64 {| xe_sheets := sheets; xe_names := map fst names; xe_xtis := xtis |}
     (frame_xls (encode_xls (EName k (N.of_nat i + 1)))) = Ok (lb_name d).
@@ -189,33 +203,12 @@ Theorem C14_sheet3d_through_xti_xlsb : forall sheets xtis i x nm,
   = resolve_xti sheets (snd (fst x)).
 Proof. exact sheet3d_through_xti_xlsb. Qed.
 
-Theorem C14_sheet3d_through_xti_xls : forall sheets gs names xtis i x nm, forallb wf_grec gs = true ->
-  xls_read_names sheets (map enc_grec gs) = Ok (names, xtis) ->
+Theorem C14_sheet3d_through_xti_xls : forall show_f64 sheets gs names xtis i x nm, forallb wf_grec gs = true ->
+  xls_read_names show_f64 sheets (map enc_grec gs) = Ok (names, xtis) ->
   nth_error (xtis_of gs) i = Some x -> snd (fst x) < 32768 ->
   spec_sheet_xls {| xe_sheets := sheets; xe_names := nm; xe_xtis := xtis |} (N.of_nat i)
   = match nthN sheets (snd (fst x)) with Some s => s | None => lit "#REF" end.
 Proof. exact sheet3d_through_xti_xls. Qed.
-
-(* xls defined-name formulas: outside the known class (one 3-D reference token, any flags since
-   commit 2c35987) the text is the A1 rendering; inside it the code deviates (witness) *)
-Theorem C14_xls_name_ref3d : forall sheets xtis k ixti a,
-  ixti < 65536 -> wf_cref 65536 a = true ->
-  let e := ERef3d k ixti a in
-  let env := {| xe_sheets := sheets; xe_names := []; xe_xtis := xtis |} in
-  known_xls_name (encode_xls e) = None /\
-  omap (xls_name_text sheets xtis) (parse_defined_names (encode_xls e)) = Ok (render_xls (fun _ => []) env e).
-Proof. exact xls_name_ref3d. Qed.
-
-Theorem C14_refuted_xls_name_formula :
-  let env := {| xe_sheets := [lit "S"]; xe_names := []; xe_xtis := [(0, 0, 0)] |} in
-  let e1 := ERef3d CRef 0 {| cr_row := 1; cr_col := 1; cr_row_rel := false; cr_col_rel := true |} in
-  let e2 := EInt 7 in
-  known_xls_name (encode_xls e1) = None /\
-  omap (xls_name_text [lit "S"] [(0, 0, 0)]) (parse_defined_names (encode_xls e1)) = Ok (lit "S!B$2") /\
-  wf_xls env e2 = true /\ known_xls_name (encode_xls e2) = Some 1 /\
-  render_xls (fun _ => []) env e2 = lit "7" /\
-  omap (xls_name_text [lit "S"] [(0, 0, 0)]) (parse_defined_names (encode_xls e2)) = Ok (lit "Unsupported ptg: 1e").
-Proof. exact refuted_xls_name_formula. Qed.
 
 (* shared / array formula members (PtgExp): both decoders answer "" whatever the shared formula is *)
 Theorem C14_refuted_ptgexp : forall show_f64 xenv benv r c, r < 65536 -> c < 65536 ->
@@ -244,7 +237,7 @@ Proof. exact xlsb_names_nonvacuous. Qed.
 
 Example C14_xls_names_nonvacuous :
   forallb wf_grec ex_globals = true /\
-  xls_read_names [lit "S1"; lit "S2"] (map enc_grec ex_globals)
+  xls_read_names (fun _ => []) [lit "S1"; lit "S2"] (map enc_grec ex_globals)
   = Ok ([([13], lit "S2!$A$1:$C$10"); ([26085; 128512], lit "S1!$AB$5")], [(0, 1, 1); (0, 0, 0)]).
 Proof. exact xls_names_nonvacuous. Qed.
 
@@ -346,7 +339,6 @@ Print Assumptions C14_ptgname_is_ith_record_xlsb.
 Print Assumptions C14_ptgname_is_ith_record_xls.
 Print Assumptions C14_sheet3d_through_xti_xlsb.
 Print Assumptions C14_sheet3d_through_xti_xls.
-Print Assumptions C14_xls_name_ref3d.
-Print Assumptions C14_refuted_xls_name_formula.
+Print Assumptions C14_defined_name_text_is_render_xls.
 Print Assumptions C14_refuted_ptgexp.
 Print Assumptions C14_stored_text_positions.
